@@ -56,6 +56,11 @@ def generate(ctx):
     for s in [lo - 1, lo - 2, hi + 1, hi + 2, lo, hi, 2**63, -(2**63), 0]:
         for us in [0, -1, 10**6, 10**6 - 1, 5]:
             cases.append({"kind": "range", "s": s, "us": us})
+    # the same limits reached through the datetime entry points: instants a datetime can express (year 1 and
+    # year 9999 in UTC) but whose seconds lie outside the accepted range
+    for s in [hi + 1, hi + 2, hi + 1801, 253402300799, lo - 1, lo - 2, lo - 3600, -62135596800, hi, lo]:
+        for us in [0, 1, 999999]:
+            cases.append({"kind": "range_dt", "s": s, "us": us})
     # datetimes: fixed offsets with every minute value, both sides of the epoch
     for i in range(ctx.budget(250, 5000)):
         r = rng.random()
@@ -249,6 +254,27 @@ def check_cases(ctx, cases):
                 ctx.fail(case, "accepted range is not [0001-01-02, 9999-12-31]", "range-bounds")
             reqs.append({"op": "mk_ts", "s": s, "us": us})
             post.append(("range", case, ok))
+        elif k == "range_dt":
+            from swh.model import git_objects as _go
+
+            ctx.case(case)
+            dt = EPOCH + datetime.timedelta(seconds=case["s"], microseconds=case["us"])
+            inside = Timestamp.MIN_SECONDS <= case["s"] <= Timestamp.MAX_SECONDS
+            for how, fn in (("from_datetime", lambda: TimestampWithTimezone.from_datetime(dt)),
+                            ("from_dict", lambda: TimestampWithTimezone.from_dict(dt)),
+                            ("from_iso8601", lambda: TimestampWithTimezone.from_iso8601(dt.isoformat())),
+                            ("normalize_timestamp", lambda: _go.normalize_timestamp(dt))):
+                try:
+                    fn()
+                    ok = True
+                except (ValueError, OverflowError):
+                    ok = False
+                ctx.count("range-through-datetime=" + ("in" if inside else "out"))
+                if ok != inside:
+                    ctx.fail(case, f"{how}: a datetime whose seconds lie {'inside' if inside else 'outside'} the accepted range is {'rejected' if inside else 'accepted'}", "range-check:" + how)
+                    break
+            reqs.append({"op": "ping"})
+            post.append(("skip", case, None))
         elif k in ("dt", "zone", "iso"):
             if k == "zone":
                 import dateutil.tz
